@@ -99,7 +99,9 @@ def generate(rng, tier):
     order = list(range(n))
     rng.shuffle(order)
     # fresh: the neighbour call-back hands out equal but not identical label objects (labels computed on the fly)
-    case = {"fn": fn, "n": n, "adj": adj, "labels": labels, "order": order, "kw": {}, "fresh": rng.random() < 0.5}
+    case = {"fn": fn, "n": n, "adj": adj, "labels": labels, "order": order, "kw": {}, "fresh": rng.random() < 0.5,
+            # the signatures take Iterables: a one-shot iterator / generator is as legal as a list
+            "nodes_as": rng.choice(["list", "list", "iter", "gen", "tuple"]), "nbrs_as": rng.choice(["list", "list", "iter", "gen"])}
     if fn == "kcore":
         case["kw"] = {"k": rng.randrange(-1, 6)}
     elif fn == "pagerank":
@@ -260,12 +262,17 @@ def execute(case) -> Outcome:
     mod = {"articulation_points": "articulation", "bridges": "articulation", "kcore_decomposition": "kcore", "kcore": "kcore",
            "pagerank": "pagerank", "louvain": "community"}[fn]
     f = getattr(solvor_mod(mod), fn)
+    na, ba = case.get("nodes_as", "list"), case.get("nbrs_as", "list")
+    nodes_arg = {"list": lambda: nodes, "tuple": lambda: tuple(nodes), "iter": lambda: iter(nodes), "gen": lambda: (x for x in nodes)}[na]()
+    if ba != "list":
+        base_lookup = lookup
+        lookup = (lambda v: iter(base_lookup(v))) if ba == "iter" else (lambda v: (w for w in base_lookup(v)))
     try:
         with budget.steps(STEP_LIMIT) as b:
             if fn == "kcore":
-                res = f(nodes, lookup, case["kw"]["k"])
+                res = f(nodes_arg, lookup, case["kw"]["k"])
             else:
-                res = f(nodes, lookup, **case["kw"])
+                res = f(nodes_arg, lookup, **case["kw"])
     except budget.StepBudgetExceeded:
         o.violate(PROP, "no_return", f"{fn} did not return within {STEP_LIMIT} events", **key)
         return o
@@ -347,5 +354,8 @@ def shrink(case):
         yield shr.with_path(case, ("order",), list(range(n)))
     if case.get("fresh"):
         yield shr.with_path(case, ("fresh",), False)
+    for k in ("nodes_as", "nbrs_as"):
+        if case.get(k, "list") != "list":
+            yield shr.with_path(case, (k,), "list")
     if any(isinstance(l, str) for l in case["labels"]) and case["labels"] != [f"n{i}" for i in range(n)]:
         yield shr.with_path(case, ("labels",), [f"n{i}" for i in range(n)])
